@@ -59,7 +59,7 @@ Definition plain_result (now : Z) (s : sess) (m : msg) : bool * sess * list even
     match s_batch s with
     | [] => (true, w_next_send (s_next_send s + 1) (w_per (per_after s m enc) (w_batch [] (w_last_sent now s))),
              out_events enc)
-    | _ => (true, w_next_send (s_next_send s + 1) (w_per (per_after s m []) (w_batch [] (w_last_sent now s))),
+    | _ => (true, w_next_send (s_next_send s + 1) (w_per (per_after s m enc) (w_batch [] (w_last_sent now s))),
             out_events (s_batch s ++ enc)%list)
     end
   else (true, w_next_send (s_next_send s + 1) (w_per (per_after s m enc) (w_batch (s_batch s ++ enc)%list s)), []).
@@ -85,7 +85,7 @@ Theorem send_process_plain : forall now s m,
   send_process sc now s m = plain_result now s m.
 Proof.
   intros now s m P C. destruct (plain_fields m P) as (Hc & Hn & Ht & H34 & H43 & _ & _ & _).
-  unfold send_process, plain_result, wire, filled, per_after.
+  unfold send_process, send_process_gen, plain_result, wire, filled, per_after.
   rewrite H43.
   set (m1 := if has_field T_SenderCompID (m_hdr m) then m else add_hdr' sc T_SenderCompID (s_snd s) m).
   set (m2 := if has_field T_TargetCompID (m_hdr m1) then m1 else add_hdr' sc T_TargetCompID (s_tgt s) m1).
